@@ -66,7 +66,13 @@ fn generated_input(rng: &mut Rng, to: Fmt) -> (Vec<u8>, &'static str) {
     let mut cl = Classes::default();
     let o = GenOpts { max_depth: 3, max_width: 3, ..GenOpts::common() };
     let body = gen_doc(rng, &o, &mut cl);
-    let tail = match rng.below(10) {
+    let tail = match rng.below(14) {
+        // strings that end in line breaks (YAML writes them as block scalars with a chomping indicator,
+        // '|+' for more than one) or consist of white space only
+        10 => Val::s("line\n\n"),
+        11 => Val::s("two\nlines\n"),
+        12 => Val::s("\n"),
+        13 => Val::s("keep\n\n\n"),
         0 | 1 => Val::s(""),
         2 => Val::Seq(vec![]),
         3 => Val::Map(vec![]),
@@ -465,7 +471,7 @@ pub fn run(ctx: &Ctx) -> i32 {
         visible_before_later_input(to, s, n, acc);
     });
     acc.merge(v_acc);
-    let rule = format!("{} invocations: 1-6 inputs (one invocation in forty: 100-400 small inputs with the failing one near the end, under a limit of 16 open descriptors) with sizes from 5 B to 4 MiB (mostly below the 8 KiB stdout buffer, some straddling it, some far above), the failing input at every position in turn (or none), failure kinds {:?}, all four targets, stdout a pipe or a file (one run in nine: a full pipe in non-blocking mode, where the run must stop with status 1 at the first input whose output cannot be delivered instead of going on and blaming a later one), some inputs through standard input, some zero-length or blank files, one invocation in five with an input of exactly 256 / 512 / 1000 / 1023 / 1024 / 1025 / 2048 / 3072 / 4096 / 8192 / 10000 / 16384 one-line documents, one name in six not valid UTF-8; every second small input is a generated document in a random source format and spelling (named by its extension) whose last value is an empty string, an empty collection or another value that serializers finish with an unusual final write, delivered as a regular file, on standard input (format detected) or through a FIFO (named with or without its extension); expectation computed with the library; plus 18 runs in which a first input is done and a later one (a FIFO, a pipe on standard input) is still pending: the first input's translation must arrive before the later input does (bounded wait, repeated with a long wait before it counts); distinct non-trivial = distinct invocations", n, FAILURES);
+    let rule = format!("{} invocations: 1-6 inputs (one invocation in forty: 100-400 small inputs with the failing one near the end, under a limit of 16 open descriptors) with sizes from 5 B to 4 MiB (mostly below the 8 KiB stdout buffer, some straddling it, some far above), the failing input at every position in turn (or none), failure kinds {:?}, all four targets, stdout a pipe or a file (one run in nine: a full pipe in non-blocking mode, where the run must stop with status 1 at the first input whose output cannot be delivered instead of going on and blaming a later one), some inputs through standard input, some zero-length or blank files, one invocation in five with an input of exactly 256 / 512 / 1000 / 1023 / 1024 / 1025 / 2048 / 3072 / 4096 / 8192 / 10000 / 16384 one-line documents, one name in six not valid UTF-8; every second small input is a generated document in a random source format and spelling (named by its extension) whose last value is an empty string, an empty collection, a string ending in one or several line breaks, or another value that serializers finish with an unusual final write, delivered as a regular file, on standard input (format detected) or through a FIFO (named with or without its extension); expectation computed with the library; plus 18 runs in which a first input is done and a later one (a FIFO, a pipe on standard input) is still pending: the first input's translation must arrive before the later input does (bounded wait, repeated with a long wait before it counts); distinct non-trivial = distinct invocations", n, FAILURES);
     ev::finish(
         Finish { ctx, level: "fault_enumeration", rule, assumptions: vec!["how much of the FAILING input's own partial output reaches stdout is left open (anything between nothing and all of it)".into()], extra: serde_json::Map::new(), exhaustive: false, min_distinct: 300, must_reach: vec![("failures_with_earlier_output_below_buffer_size".into(), 100), ("expected_exit_0".into(), 50), ("failing_position_0".into(), 20), ("failing_position_3".into(), 20), ("generated_input_msgpack".into(), 30), ("generated_input_yaml".into(), 30), ("generated_input_json".into(), 30), ("generated_input_on_stdin".into(), 20), ("zero_length_or_blank_input".into(), 50), ("input_names_not_utf8".into(), 100), ("generated_input_through_fifo".into(), 30), ("inputs_with_an_exact_round_number_of_documents".into(), 100), ("invocations_with_hundreds_of_inputs".into(), 20), ("full_pipe_failure_reported_at_the_input_whose_output_was_lost".into(), 40), ("earlier_output_visible_while_a_later_input_is_pending".into(), 18)] },
         acc,
